@@ -600,6 +600,11 @@ func (x *Exec) runLoop(fr *frame, li *loopInfo, st *State) ([]edge, error) {
 	hpos := x.loopPos(li)
 	name := fmt.Sprintf("%sloop%d", fr.prefix, li.ordinal)
 	auto := false
+	if spec == nil && fr.fn.Parent() != nil {
+		// a loop inside a function literal (typically a deferred clean-up): cut with the invariant
+		// "true" - everything the body writes is havoced, nothing is assumed or claimed about it
+		spec = &LoopSpec{}
+	}
 	if spec == nil {
 		if fr.depth != 0 || x.autoDepth > 0 || os.Getenv("VERIF_NO_AUTOUNROLL") != "" {
 			return nil, unsupported("loop %d of %s (line %d) has neither invariant nor unroll", li.ordinal, fr.fn.Name(), hpos.Line)
@@ -1581,8 +1586,49 @@ func (x *Exec) execInstr(fr *frame, st *State, in ssa.Instruction) error {
 	case *ssa.MakeChan:
 		x.setReg(st, i, Val{T: vc.allocRef(st, "chan")})
 		return nil
-	case *ssa.Range, *ssa.Next:
-		return unsupported("range over map/string")
+	case *ssa.Range:
+		// range over a map: the iterator is the map reference; every Next below yields an arbitrary
+		// entry that is present at that moment, or ends the loop (a sound over-approximation: "each
+		// key exactly once, all keys" is not modelled - the loop needs an invariant like any other)
+		if _, ok := i.X.Type().Underlying().(*types.Map); !ok {
+			return unsupported("range over string")
+		}
+		mv, err := x.val(st, i.X)
+		if err != nil {
+			return err
+		}
+		x.setReg(st, i, Val{T: mv.T, Typ: i.X.Type()})
+		if vc.dry == 0 {
+			vc.dropped["range over a map: arbitrary present entry per iteration, arbitrary number of iterations"] = true
+		}
+		return nil
+	case *ssa.Next:
+		if i.IsString {
+			return unsupported("range over string")
+		}
+		rng, ok := i.Iter.(*ssa.Range)
+		if !ok {
+			return unsupported("next on %T", i.Iter)
+		}
+		mt, ok := rng.X.Type().Underlying().(*types.Map)
+		if !ok {
+			return unsupported("range over string")
+		}
+		mv, err := x.val(st, i.Iter)
+		if err != nil {
+			return err
+		}
+		hk, hs, vk, vs := vc.mapKeys(mt)
+		okT := vc.freshConst("rng_ok", SBool)
+		kT := vc.freshConst("rng_k", vc.sortOf(mt.Key()))
+		vT := vc.freshConst("rng_v", vc.sortOf(mt.Elem()))
+		isNil := Eq(mv.T, intLit64(0))
+		has := And(Not(isNil), Select(Select(vc.heapGet(st, hk, hs), mv.T), kT))
+		vc.assume(st.pc, Implies(okT, And(has, Eq(vT, Select(Select(vc.heapGet(st, vk, vs), mv.T), kT)))))
+		vc.assume(st.pc, vc.wf(st, kT, mt.Key(), 0))
+		vc.assume(st.pc, vc.wf(st, vT, mt.Elem(), 0))
+		x.setReg(st, i, Val{Tuple: []Val{{T: okT, Typ: types.Typ[types.Bool]}, {T: kT, Typ: mt.Key()}, {T: vT, Typ: mt.Elem()}}})
+		return nil
 	case *ssa.SliceToArrayPointer:
 		return unsupported("slice to array pointer")
 	case *ssa.MultiConvert:
